@@ -14,6 +14,8 @@ mod graphviz;
 mod splitting;
 #[cfg(googlefonts_fontations_verif)]
 pub mod verif_hooks;
+#[cfg(googlefonts_fontations_verif)]
+pub use splitting::verif_split_coverage;
 
 static OBJECT_COUNTER: AtomicU64 = AtomicU64::new(0);
 
